@@ -1,7 +1,7 @@
 SPECIFICATION Spec
 CONSTANT Mode = "fixed"
 CONSTANT IntoMode = "faithful"
-CONSTANT EncMode = "faithful"
+CONSTANT EncMode = "merged_arms"
 CONSTANT Tier = "quick"
 INVARIANT LayoutRoundTrip
 INVARIANT IndexInjective
